@@ -130,6 +130,9 @@ Definition C18_full : Prop := C18_elements_statement /\ C18_product_statement.
 Theorem C18_full_partial : C18_elements_statement.
 Proof. exact elements_spec. Qed.
 
+(* NOTE (later round): `C18_product_statement` (and hence `C18_full`) is now PROVED in Props/C18b.v
+   (`C18_product_spec`, `C18_full_proved`, `C18_resolution_of_identity`, `C18_bra_ket_sign`). *)
+
 Print Assumptions C18_swap_anticommute.
 Print Assumptions C18_swap_in_context.
 Print Assumptions C18_vev_pass_invariant.
